@@ -286,6 +286,10 @@ def chk_history(case, acc, seed):
 DISPATCH = {'seed': chk_seed, 'reject': chk_reject, 'cosmic': chk_cosmic, 'history': chk_history}
 
 
+def t_one(arg, acc):
+    DISPATCH[arg['case']['kind']](arg['case'], acc, arg['seed'])
+
+
 def t_cosmic(arg, acc):
     n = 64 if arg['tier'] == 'quick' else 512
     for shape in ((8, 8), (6, 10), (12, 5)):
@@ -304,10 +308,10 @@ def run(tier, seed, acc, procs=None):
         tasks.append(('t_cosmic', {'tier': tier, 'seed': seed, 'lo': lo}))
     acc.states += 1
     for after in REFUSED:
-        chk_reject({'kind': 'reject', 'after': after}, acc, seed)
+        tasks.append(('t_one', {'seed': seed, 'case': {'kind': 'reject', 'after': after}}))
     for fname in FRAMES:
         for sd in (0, 1, 5):
-            chk_history({'kind': 'history', 'frame': fname, 'seed': sd}, acc, seed)
+            tasks.append(('t_one', {'seed': seed, 'case': {'kind': 'history', 'frame': fname, 'seed': sd}}))
     engine.run_parallel(MOD, tasks, acc, procs)
     return {
         'rule': f'seeds 0..{n - 1} x frames (4x4, 3x5, 16x16) x levels (0, 1/2, 3, 50, 1e4) x 6 seeded models: same seed -> identical '
